@@ -3,10 +3,17 @@ import json, os, subprocess, sys, time, hashlib, resource
 
 VERIF = os.path.dirname(os.path.dirname(os.path.abspath(__file__)))
 REPO = os.environ.get("VERIF_REPO", "/repo")
-CACHE = os.path.join(VERIF, ".cache")
-EVIDENCE = os.path.join(VERIF, "evidence")
-REPLAYS = os.path.join(VERIF, "replays")
+# VERIF_INSTANCE (development aid for testing seeded changes in parallel on copies of the repository; never set
+# by a registered command): private cache, evidence and replay directories so that concurrent runs do not collide
+INSTANCE = os.environ.get("VERIF_INSTANCE")
+CACHE = os.path.join(VERIF, ".cache") if not INSTANCE else os.path.join(VERIF, ".cache", "inst-" + INSTANCE)
+EVIDENCE = os.path.join(VERIF, "evidence") if not INSTANCE else os.path.join(CACHE, "evidence")
+REPLAYS = os.path.join(VERIF, "replays") if not INSTANCE else os.path.join(CACHE, "replays")
 NCPU = os.cpu_count() or 4
+PROCESS_T0 = time.time()
+# every-change tier: lemmas still waiting when this much wall-clock time has passed are not started and are listed as
+# skipped in the evidence (a safety net for slow machines; the quick subsets are sized to finish well before it)
+QUICK_TIME_BOX_S = float(os.environ.get("VERIF_QUICK_BOX", "660"))
 
 OFFLINE_ENV = {"CARGO_NET_OFFLINE": "true"}
 
